@@ -154,6 +154,8 @@ impl<T> HybridRwLock<T> {
 
   #[inline]
   pub async fn read_async(&self) -> ReadGuard<'_, T> {
+    #[cfg(all(excsn_fibre_verif, not(loom)))]
+    super::verif_hook::emit(0, self as *const Self as *const () as usize, 1);
     if self.try_acquire_read() {
       return ReadGuard { lock: self };
     }
@@ -238,6 +240,8 @@ impl<T> HybridRwLock<T> {
 
   #[inline]
   pub async fn write_async(&self) -> WriteGuard<'_, T> {
+    #[cfg(all(excsn_fibre_verif, not(loom)))]
+    super::verif_hook::emit(0, self as *const Self as *const () as usize, 0);
     if self.try_acquire_write() {
       return WriteGuard { lock: self };
     }
